@@ -171,7 +171,8 @@ class _FakeLoader:
         return self.groups
 
 
-@unit("C15", "RamsesDataset.load.merge", targets=["osyris.io.ramses:RamsesDataset.load"], cases=[{"label": "replace_and_keep"}],
+@unit("C15", "RamsesDataset.load.merge", targets=["osyris.io.ramses:RamsesDataset.load"],
+      cases=[{"label": "replace_and_keep"}, {"label": "replace_with_empty_group"}],
       uses=["_binary_op", "Array.to", "Array._wrap_numpy"], replay=NIO.replay_history)
 def merge(case):
     from . import arrays as A
@@ -187,7 +188,8 @@ def merge(case):
     old_part["mass"] = A.mk_array("old_m", dims, "1d")
     ds["mesh"], ds["part"] = old_mesh, old_part
     new_mesh = osy.Datagroup()
-    new_mesh["pressure"] = A.mk_array("new_p", dims, "1d")
+    if case["label"] == "replace_and_keep":
+        new_mesh["pressure"] = A.mk_array("new_p", dims, "1d")  # else: the call selected no cell at all
     ds.loader = _FakeLoader({"mesh": new_mesh})
     ds.units = object()
     ds.meta = {"time": 1.0}
